@@ -116,8 +116,12 @@ def one(rec, t, ti, name, obj, j, rng):
             except Exception as e:
                 out.append("raises " + type(e).__name__)
         return out
-    snap0 = snapshot(inst)
     b1 = serialize(t, C, inst)
+    cheap = isinstance(b1, bytes) and len(b1) > 20000  # reprs of huge values would dominate the run
+    if cheap:
+        def snapshot(x):  # noqa: F811
+            return [getattr(x, "byte_size", None)]
+    snap0 = snapshot(inst)
     b2 = serialize(t, C, inst)
     # every public method of the instance / class is exercised; none of them may change what the instance shows
     for meth in ("write", "family", "action", "__repr__", "__str__", "__hash__"):
@@ -127,6 +131,18 @@ def one(rec, t, ti, name, obj, j, rng):
                 f(t.EoWriter()) if meth == "write" else f()
             except Exception:
                 pass
+    # the same instance serialized into a writer that is already sanitising, then normally again: what
+    # one serialization does to shared helpers must not change the next one
+    wm = t.EoWriter()
+    wm.string_sanitization_mode = True
+    try:
+        C.serialize(wm, inst)
+    except Exception:
+        pass
+    b_again = serialize(t, C, inst)
+    if b_again != b1:
+        case["xml"] = t.files
+        rec.violation("serialization-not-repeatable", "tree %d %s: after serializing the instance into a sanitising writer, a normal serialization gives %r instead of %r" % (ti, name, b_again, b1), case)
     rec.count("public-method-snapshots")
     snap1 = snapshot(inst)
     if snap1 != snap0:
@@ -164,7 +180,7 @@ def one(rec, t, ti, name, obj, j, rng):
 
         try:
             # always read through the fuel-limited proxy: a deserializer may not terminate (see C03)
-            back = C.deserialize(LockstepReader(t.EoReader(b1), RefReader(b1), fuel=50 * len(b1) + 2000))
+            back = C.deserialize(LockstepReader(t.EoReader(b1), RefReader(b1), fuel=min(50 * len(b1) + 2000, 6 * len(b1) + 200000)))
         except (Exception, FuelExhausted):
             rec.count("deserialize-raised-or-out-of-fuel")
             return
